@@ -39,6 +39,13 @@ type Inst struct {
 	Odd     bool     `json:"odd,omitempty"`
 	OddKeys []string `json:"odd_keys,omitempty"`
 	OddVals []string `json:"odd_vals,omitempty"`
+	// ExpSize != 0: a View aggregates this (synchronous histogram) instrument
+	// as AggregationBase2ExponentialHistogram{MaxSize: ExpSize, MaxScale:
+	// ExpScale}; ExpSign is the sign mode its values were drawn with
+	// (0 positive only, 1 negative only, 2 mixed) - documentation only.
+	ExpSize  int `json:"exp_size,omitempty"`
+	ExpScale int `json:"exp_scale,omitempty"`
+	ExpSign  int `json:"exp_sign,omitempty"`
 	// Obs[r][t] is what the callback of an observable instrument reports in
 	// round r for tuple t (same scaling as Meas.V).
 	Obs [][]int `json:"obs,omitempty"`
@@ -226,7 +233,35 @@ func genAttrs(t *rapid.T, keys, vals []string, max int, label string) []Attr {
 	return out
 }
 
-func genValue(t *rapid.T, kind string) int {
+// magnitudes for exponential histograms: exactly representable, close
+// together (high scale survives) and far apart (forces rescaling); the
+// float64 ones are in eighths (1/8 .. 2^37).
+var (
+	expInts = []int{1, 2, 3, 4, 5, 7, 8, 9, 100, 1024, 1 << 20, 1 << 30, 1 << 37}
+	expF8   = []int{1, 3, 8, 9, 12, 16, 24, 56, 64, 800, 8192, 1 << 23, 1 << 33, 1 << 40}
+)
+
+func genValue(t *rapid.T, in *Inst) int {
+	kind := in.Kind
+	if in.ExpSize != 0 {
+		if rapid.IntRange(0, 6).Draw(t, "zero") == 3 {
+			return 0
+		}
+		tab := expInts
+		if isFloat(kind) {
+			tab = expF8
+		}
+		v := rapid.SampledFrom(tab).Draw(t, "mag")
+		switch in.ExpSign {
+		case 1:
+			return -v
+		case 2:
+			if rapid.Bool().Draw(t, "neg") {
+				return -v
+			}
+		}
+		return v
+	}
 	switch {
 	case isHist(kind) && isFloat(kind):
 		return rapid.SampledFrom(histF8).Draw(t, "v")
@@ -243,6 +278,11 @@ func genInst(t *rapid.T, idx, base, nscopes, rounds int, prev *Inst) Inst {
 	in := Inst{}
 	in.Kind = rapid.SampledFrom(kinds).Draw(t, "kind")
 	in.Unit = genUnit(t)
+	if isHist(in.Kind) && rapid.Bool().Draw(t, "exphist") {
+		in.ExpSize = rapid.SampledFrom([]int{160, 20, 4}).Draw(t, "expsize")
+		in.ExpScale = rapid.SampledFrom([]int{20, 3, 0, -2}).Draw(t, "expscale")
+		in.ExpSign = rapid.SampledFrom([]int{2, 2, 0, 1}).Draw(t, "expsign")
+	}
 	if prev != nil && rapid.IntRange(0, 19).Draw(t, "clash") == 7 {
 		in.Name = variant(t, prev.Name)
 	} else {
@@ -295,7 +335,7 @@ func genInst(t *rapid.T, idx, base, nscopes, rounds int, prev *Inst) Inst {
 		for r := range in.Obs {
 			in.Obs[r] = make([]int, ntup)
 			for k := range in.Obs[r] {
-				v := genValue(t, in.Kind)
+				v := genValue(t, &in)
 				if isCounter(in.Kind) && r > 0 {
 					v += in.Obs[r-1][k] // cumulative: never decreases
 				}
@@ -399,14 +439,25 @@ func genCase(conc bool) func(t *rapid.T) Case {
 				for _, i := range sync {
 					if rapid.IntRange(0, 9).Draw(t, "seed") < 8 {
 						in := c.Insts[i]
-						c.Rounds[r] = append(c.Rounds[r], Meas{I: i, T: rapid.IntRange(0, in.ntuples()-1).Draw(t, "t"), V: genValue(t, in.Kind)})
+						c.Rounds[r] = append(c.Rounds[r], Meas{I: i, T: rapid.IntRange(0, in.ntuples()-1).Draw(t, "t"), V: genValue(t, &in)})
 					}
+				}
+			}
+			// exponential histograms: several values per round so that more
+			// than one bucket per sign is populated and the scale has to drop
+			for _, i := range sync {
+				in := c.Insts[i]
+				if in.ExpSize == 0 {
+					continue
+				}
+				for k := rapid.IntRange(0, 5).Draw(t, "expextra"); k > 0; k-- {
+					c.Rounds[r] = append(c.Rounds[r], Meas{I: i, T: rapid.IntRange(0, in.ntuples()-1).Draw(t, "t"), V: genValue(t, &in)})
 				}
 			}
 			for k := 0; k < n; k++ {
 				i := rapid.SampledFrom(sync).Draw(t, "mi")
 				in := c.Insts[i]
-				c.Rounds[r] = append(c.Rounds[r], Meas{I: i, T: rapid.IntRange(0, in.ntuples()-1).Draw(t, "t"), V: genValue(t, in.Kind)})
+				c.Rounds[r] = append(c.Rounds[r], Meas{I: i, T: rapid.IntRange(0, in.ntuples()-1).Draw(t, "t"), V: genValue(t, &in)})
 			}
 		}
 		if conc {
